@@ -486,7 +486,49 @@ def w_highlight(failure, tier):
                                 input='document body=%r (%d bytes); query alpha; highlight body fragment_size=%d (match length 5, so fragment_size >= 2*5)' % (text, len(text.encode()), fs),
                                 observed='highlights.body contains ' + bad,
                                 expected='every fragment non-empty, containing a tagged match, a substring of the text, at most fragment_size bytes')
-    return dict(found=False, note='highlight: %d fragments over %d multi-byte documents x %d fragment sizes are all well-formed' % (n, len(docs), len(sizes)))
+    # second corpus: tokens that do not start / end with a word character (whitespace tokenizer), cut so that the match
+    # sits at the very end or the very start of the window - the context a `\b` needs is then outside the fragment
+    schema = {"doc_id_field": "_id", "analyzers": [{"name": "ws", "tokenizer": "whitespace", "filters": []}],
+              "text_fields": [{"name": "body", "analyzer": "ws", "stored": True, "indexed": True}],
+              "keyword_fields": [], "numeric_fields": [], "nested_fields": []}
+    docs2 = [{"_id": "w0", "body": "in c++11 and c++"}, {"_id": "w1", "body": "see c++ and ++c and c++"}, {"_id": "w2", "body": "the ++c++ one"},
+             {"_id": "w3", "body": "\u00e9\u00e9 c++\u00e9 and c++ \u4e2d\u4e2d c++"}]
+    sizes2 = [6, 7, 8, 9, 10, 12]
+    reqs2 = []
+    for term in ("c++", "++c"):
+        for fs in sizes2:
+            for nf in (1, 3):
+                reqs2.append((term, fs, dict(REQ_BASE, query={"type": "term", "field": "body", "value": term}, return_stored=True,
+                             highlight={"fields": {"body": {"pre_tag": "[", "post_tag": "]", "fragment_size": fs, "number_of_fragments": nf}}})))
+    out2, err = drive_search({"schema": schema, "batches": [docs2], "requests": [r for (_, _, r) in reqs2]})
+    if out2 is None:
+        return dict(found=False, note='search driver failed: %s' % err)
+    n2 = 0
+    for (term, fs, _), o in zip(reqs2, out2):
+        if 'panic' in o:
+            return dict(found=True, cmd='%s search' % BIN, input='highlight %r fragment_size %d' % (term, fs), observed='PANIC ' + o['panic'][:200], expected='no panic')
+        if 'ok' not in o:
+            continue
+        for h in o['ok']['hits']:
+            text = dict((d['_id'], d['body']) for d in docs2)[h['doc_id']]
+            for frag in (h.get('highlights') or {}).get('body', []):
+                n2 += 1
+                plain = frag.replace('[', '').replace(']', '')
+                bad = None
+                if frag == '':
+                    bad = 'an EMPTY fragment'
+                elif '[' not in frag:
+                    bad = 'a fragment without a tagged match: %r' % frag
+                elif plain not in text:
+                    bad = 'a fragment that is not a substring of the text: %r' % frag
+                elif len(plain.encode()) > fs:
+                    bad = 'a fragment of %d bytes > fragment_size' % len(plain.encode())
+                if bad:
+                    return dict(found=True, cmd='%s search <<< hex(json)' % BIN,
+                                input='text field body with a whitespace analyzer; document body=%r; term query %r; highlight body fragment_size=%d (match length 3, so fragment_size >= 2*3)' % (text, term, fs),
+                                observed='highlights.body contains ' + bad,
+                                expected='every fragment non-empty, containing a tagged match, a substring of the text, at most fragment_size bytes')
+    return dict(found=False, note='highlight: %d fragments over %d multi-byte documents x %d fragment sizes, and %d fragments over %d documents with tokens that end in non-word characters, are all well-formed' % (n, len(docs), len(sizes), n2, len(docs2)))
 
 
 # ---------------------------------------------------------------- U14 sort-plan fingerprint
@@ -1967,7 +2009,67 @@ def w_bmw_blocks(failure, tier):
     return dict(found=False, note='bmw block skipping: %d block sizes agree with bm25' % n)
 
 
+def w_date_buckets(failure, tier):
+    """date_histogram with a fixed interval: every document is counted in the bucket [key, key + interval) that contains its
+    timestamp"""
+    skip = set((failure or {}).get('skip_cases') or [])
+    if 'date-histogram-fixed-rounds-up' in skip:
+        return dict(found=False, note='fixed-interval date buckets: the case of this generator is an open known finding (skipped)')
+    H = 3600 * 1000
+    tss = [0, 12 * H, 24 * H - 1, 24 * H, 30 * H]
+    docs = [{"_id": "t%d" % i, "body": "x", "ts": ts} for i, ts in enumerate(tss)]
+    add = {"numeric_fields": [{"name": "ts", "i64": True, "fast": True, "stored": True}]}
+    n = 0
+    for (interval, step, offset, off_ms) in (("1d", 24 * H, None, 0), ("1d", 24 * H, "6h", 6 * H), ("12h", 12 * H, None, 0)):
+        agg = {"type": "date_histogram", "field": "ts", "fixed_interval": interval}
+        if offset:
+            agg["offset"] = offset
+        out, err = drive_search({"schema": None, "schema_add": add, "batches": [docs], "requests": [dict(REQ_BASE, query={"type": "match_all"}, limit=1, aggs={"h": agg})]})
+        if out is None or 'ok' not in out[0]:
+            return dict(found=False, note='search driver failed: %s' % (err or str(out)[:300]))
+        got = [(int(b['key']), b['doc_count']) for b in out[0]['ok']['aggregations']['h']['buckets'] if b['doc_count']]
+        want = {}
+        for ts in tss:
+            k = ((ts - off_ms) // step) * step + off_ms
+            want[k] = want.get(k, 0) + 1
+        n += 1
+        if got != sorted(want.items()):
+            return dict(found=True, cmd='%s search <<< hex(json)' % BIN, case='date-histogram-fixed-rounds-up',
+                        input='timestamps 0, 12h, 24h-1ms, 24h, 30h (ms); date_histogram fixed_interval %s%s' % (interval, ', offset %s' % offset if offset else ''),
+                        observed='buckets (key, count) %s' % got, expected='%s: each timestamp in the bucket [key, key + interval) that contains it' % sorted(want.items()))
+    return dict(found=False, note='fixed-interval date buckets: %d settings put every timestamp into the bucket that contains it' % n)
+
+
+def w_nested_compact(failure, tier):
+    """nested filters before and after compaction: a nested array with an element that has no stored value (null property,
+    empty object) - the objects keep their numbering, so a nested filter gives the same documents after compaction"""
+    skip = set((failure or {}).get('skip_cases') or [])
+    if 'nested-shape-after-compaction' in skip:
+        return dict(found=False, note='nested filters across compaction: the case of this generator is an open known finding (skipped)')
+    kw = lambda nme: {"type": "keyword", "name": nme, "stored": True, "indexed": True, "fast": True, "nullable": True}
+    add = {"nested_fields": [{"name": "comment", "nullable": True, "fields": [kw("author")]}]}
+    n = 0
+    for hole in ({"author": None}, {}, None):
+        docs = [{"_id": "d1", "body": "x", "comment": [{"author": "bob"}, hole]}, {"_id": "d2", "body": "x", "comment": [{"author": "bob"}]}]
+        flt = {"Nested": {"path": "comment", "filter": {"Not": {"KeywordEq": {"field": "author", "value": "bob"}}}}}
+        base = {"schema": None, "schema_add": add, "batches": [[docs[0]], [docs[1]]], "requests": [dict(REQ_BASE, query={"type": "match_all"}, limit=10, filter=flt)]}
+        o1, e1 = drive_search(base)
+        o2, e2 = drive_search(dict(base, compact=True))
+        if o1 is None or o2 is None or 'ok' not in o1[0] or 'ok' not in o2[0]:
+            return dict(found=False, note='search driver failed: %s' % (e1 or e2 or str(o1)[:200]))
+        a = sorted(h['doc_id'] for h in o1[0]['ok']['hits'])
+        b = sorted(h['doc_id'] for h in o2[0]['ok']['hits'])
+        n += 1
+        if a != b:
+            return dict(found=True, cmd='%s search <<< hex(json) (once as committed, once with "compact": true)' % BIN, case='nested-shape-after-compaction',
+                        input='d1 comment: [{"author": "bob"}, %s], d2 comment: [{"author": "bob"}], two segments; filter Nested{comment, Not(author = bob)}' % _json.dumps(hole),
+                        observed='before compaction %s, after compaction %s' % (a, b), expected='the same documents')
+    return dict(found=False, note='nested filters across compaction: %d cases give the same documents' % n)
+
+
 GENERATORS = {
+    ('U55', 'project_array_shape'): w_nested_compact,
+    ('U54', 'fixed_bucket_start'): w_date_buckets,
     ('U53', 'skip_to_pivot'): w_bmw_blocks,
     ('U52', 'scan_or_terms'): w_optional_clauses,
     ('U52', 'empty_terms_answer'): w_optional_clauses,
